@@ -607,3 +607,83 @@ twin('c17-zeros-default', 'C17', EV, 'Evolvent.__GetYonX',
 twin('c17-copy-result-array', 'C17', EV, 'Evolvent.GetImage', 'return np.copy(self.yValues)', 'return np.array(self.yValues)')
 twin('c17-n1-rebind', 'C17', EV, 'Evolvent.__GetYonX', '            self.yValues[0] = _x - 0.5\n',
      '            self.yValues = np.zeros(1, dtype=np.double)\n            self.yValues[0] = _x - 0.5\n')
+
+# ----------------------------------------------------------------------------- C13
+LS = 'iOpt/method/listener.py'
+CO = 'iOpt/output_system/console/console_output.py'
+SP = 'iOpt/output_system/painters/static_painter.py'
+DP = 'iOpt/output_system/painters/dynamic_painter.py'
+fire('c13-base-sig', 'C13', LS, 'Listener.OnMethodStop', 'def OnMethodStop(self, searchData: SearchData, solution: Solution, status: bool):',
+     'def OnMethodStop(self, searchData: SearchData):', 'R13.1')
+fire('c13-base-missing', 'C13', LS, 'Listener', '    def OnRefrash(self, searchData: SearchData):\n        pass\n',
+     '', None, also=[(LS, 'Listener', '    def BeforeMethodStart(self, searchData: SearchData):\n        pass\n\n', '')])
+fire('c13-callsite-extra-arg', 'C13', P, 'Process.DoGlobalIteration', 'listener.OnEndIteration(savedNewPoints, self.GetResults())',
+     'listener.OnEndIteration(savedNewPoints, self.GetResults(), number)', 'R13.1')
+fire('c13-override-sig', 'C13', LS, 'StaticPaintListener.OnMethodStop',
+     'def OnMethodStop(self, searchData: SearchData,\n                     solution: Solution, status: bool):',
+     'def OnMethodStop(self, searchData: SearchData,\n                     solution: Solution):', 'R13.1')
+fire('c13-duck-attr', 'C13', LS, 'ConsoleFullOutputListener.BeforeMethodStart',
+     'FunctionConsoleFullOutput(method.task.problem, method.parameters)', 'FunctionConsoleFullOutput(method.problem, method.parameters)',
+     'R13.2')
+fire('c13-duck-method', 'C13', CO, 'FunctionConsoleFullOutput.printIterPointInfo', 'value = savedNewPoints[0].GetZ()',
+     'value = savedNewPoints[0].GetValue()', 'R13.2')
+fire('c13-before-after-seed', 'C13', P, 'Process.DoGlobalIteration',
+     '                for listener in self.__listeners:\n                    listener.BeforeMethodStart(self.method)\n                self.method.FirstIteration()',
+     '                self.method.FirstIteration()\n                for listener in self.__listeners:\n                    listener.BeforeMethodStart(self.method)',
+     'R13.3')
+fire('c13-before-every-call', 'C13', P, 'Process.DoGlobalIteration',
+     '        savedNewPoints = []\n', '        savedNewPoints = []\n        for listener in self.__listeners:\n            listener.BeforeMethodStart(self.method)\n',
+     'R13.3')
+fire('c13-append-old', 'C13', P, 'Process.DoGlobalIteration', 'savedNewPoints.append(newpoint)', 'savedNewPoints.append(oldpoint)',
+     'R13.3')
+fire('c13-no-append', 'C13', P, 'Process.DoGlobalIteration', '                savedNewPoints.append(newpoint)\n', '', 'R13.3')
+fire('c13-end-inside-loop', 'C13', P, 'Process.DoGlobalIteration',
+     '                self.method.FinalizeIteration()\n',
+     '                self.method.FinalizeIteration()\n                for listener in self.__listeners:\n                    listener.OnEndIteration(savedNewPoints, self.GetResults())\n',
+     'R13.3')
+fire('c13-end-break', 'C13', P, 'Process.DoGlobalIteration',
+     '            listener.OnEndIteration(savedNewPoints, self.GetResults())',
+     '            listener.OnEndIteration(savedNewPoints, self.GetResults())\n            break', 'R13.3')
+fire('c13-end-first-only', 'C13', P, 'Process.DoGlobalIteration',
+     '        for listener in self.__listeners:\n            listener.OnEndIteration', '        for listener in self.__listeners[:1]:\n            listener.OnEndIteration',
+     'R13.3')
+fire('c13-stop-skipped-on-exception', 'C13', P, 'Process.Solve',
+     "            print('Exception was thrown')", "            print('Exception was thrown')\n            return self.GetResults()",
+     'R13.3')
+fire('c13-stop-before-refine', 'C13', P, 'Process.Solve',
+     '        if self.parameters.refineSolution:\n            self.DoLocalRefinement(-1)\n\n        result = self.GetResults()\n        result.solvingTime = (datetime.now() - startTime).total_seconds()\n\n        for listener in self.__listeners:\n            status = self.method.CheckStopCondition()\n            listener.OnMethodStop(self.searchData, self.GetResults(), status)\n',
+     '        for listener in self.__listeners:\n            status = self.method.CheckStopCondition()\n            listener.OnMethodStop(self.searchData, self.GetResults(), status)\n\n        if self.parameters.refineSolution:\n            self.DoLocalRefinement(-1)\n\n        result = self.GetResults()\n        result.solvingTime = (datetime.now() - startTime).total_seconds()\n',
+     'R13.3')
+fire('c13-seed-item-wrong', 'C13', M, 'Method.FirstIteration',
+     '        self.searchData.InsertFirstDataItem(left, right)\n        self.searchData.InsertDataItem(middle, right)',
+     '        self.searchData.InsertDataItem(middle, right)\n        self.searchData.InsertFirstDataItem(left, right)',
+     None)
+fire('c13-list-copied', 'C13', P, 'Process.__init__', 'self.__listeners = listeners', 'self.__listeners = list(listeners)',
+     'R13.4')
+fire('c13-console-swapped', 'C13', CO, 'FunctionConsoleFullOutput.printFinalResult',
+     '            solution.numberOfGlobalTrials,\n            solution.numberOfLocalTrials,', '            solution.numberOfLocalTrials,\n            solution.numberOfGlobalTrials,',
+     'R13.5')
+fire('c13-console-label', 'C13', CO, 'ConsoleOutputer.printResult',
+     '"global iteration count: ", numberOfGlobalTrials', '"global iteration count: ", numberOfLocalTrials', 'R13.5')
+fire('c13-console-value', 'C13', CO, 'FunctionConsoleFullOutput.printFinalResult',
+     'bestTrialValue = solution.bestTrials[0].functionValues[0].value', 'bestTrialValue = solution.bestTrials[0].functionValues[-1].value',
+     'R13.5')
+fire('c13-painter-nocopy', 'C13', SP, 'StaticVisualization1D.drawObjFunction', 'copy = self.optimum.copy()', 'copy = self.optimum',
+     'R13.6')
+fire('c13-painter-nd-nocopy', 'C13', DP, 'AnimateVisualizationND.drawObjFunction', 'copy = optimum.copy()', 'copy = optimum',
+     'R13.6')
+fire('c13-painter-holder', 'C13', SP, 'FunctionStaticNDPainter.PaintLL', '                fv = FunctionValue()\n                fv = sv1d.objFunc(x_, fv)',
+     '                fv = self.solution.bestTrials[0].functionValues[0]\n                fv = sv1d.objFunc(x_, fv)', 'R13.6')
+fire('c13-listener-sorts', 'C13', CO, 'FunctionConsoleFullOutput.printIterPointInfo', 'value = savedNewPoints[0].GetZ()',
+     'value = savedNewPoints[0].GetZ()\n        savedNewPoints[0].SetZ(round(value, 8))', 'R13.6')
+fire('c13-console-mutates-solution', 'C13', CO, 'FunctionConsoleFullOutput.printFinalResult',
+     '        bestTrialValue = solution.bestTrials[0].functionValues[0].value\n',
+     '        bestTrialValue = solution.bestTrials[0].functionValues[0].value\n        solution.solvingTime = round(solution.solvingTime, 3)\n',
+     'R13.6')
+twin('c13-kw-call', 'C13', P, 'Process.Solve', 'listener.OnMethodStop(self.searchData, self.GetResults(), status)',
+     'listener.OnMethodStop(self.searchData, solution=self.GetResults(), status=status)')
+twin('c13-painter-nparray', 'C13', SP, 'StaticVisualization1D.drawObjFunction', 'copy = self.optimum.copy()',
+     'copy = np.array(self.optimum)')
+twin('c13-status-hoisted', 'C13', P, 'Process.Solve',
+     '        for listener in self.__listeners:\n            status = self.method.CheckStopCondition()\n            listener.OnMethodStop',
+     '        status = self.method.CheckStopCondition()\n        for listener in self.__listeners:\n            listener.OnMethodStop')
